@@ -260,6 +260,9 @@ def compile_shard(vfile):
             fails.append((int(it.group(1)), it.group(2) == "true", it.group(3) == "true"))
         if not fails and re.sub(r"\s", "", body) != "[]":
             return vfile, 98, "verdict not understood:\n" + body[:2000], [], time.time() - t0
+        mj = re.search(r"judged\s*=\s*(\d+)", out)
+        if mj:
+            out = "JUDGED=%s" % mj.group(1)
     return vfile, rc, out, fails, time.time() - t0
 
 
@@ -391,6 +394,7 @@ def check(prop, tier, seed, replay=None):
     corr_error = None
     nontrivial_keys = set()
     samples = []
+    judged_total = 0
     if corr_built:
         for sub in cfg["harness"]:
             n = sub["n"][tier]
@@ -429,6 +433,8 @@ def check(prop, tier, seed, replay=None):
             with ThreadPoolExecutor(max_workers=16) as ex:
                 results = list(ex.map(compile_shard, shards))
             for vfile, rc, out, fails, dt in results:
+                if rc == 0 and out.startswith("JUDGED="):
+                    judged_total += int(out[7:])
                 shard_times.append(round(dt, 1))
                 kernel_cmds.append("coqc -Q . GA " + vfile)
                 if rc != 0:
@@ -538,6 +544,7 @@ def check(prop, tier, seed, replay=None):
         "rule": cfg.get("rule", ""),
         "samples": samples[:8] if samples else [{"note": "no cases generated"}],
         "traces_validated_against_impl": cases_total - len(fails_model) - len(fails_spec),
+        "cases_inside_quantifier_judged_by_spec_oracle": judged_total,
         "model_impl_disagreements": len(fails_model),
         "spec_failures": len(fails_spec),
         "spec_failures_known": len(fails_spec) - len(unknown_spec),
@@ -576,9 +583,9 @@ def check(prop, tier, seed, replay=None):
             json.dump(ev, f, indent=1, sort_keys=True)
     for ln in known_lines:
         print(ln)
-    log("%s tier=%s seed=%s: %d theorems (%d discharged), %d cases, %d model/impl disagreements, "
+    log("%s tier=%s seed=%s: %d theorems (%d discharged), %d cases (%d judged by spec), %d model/impl disagreements, "
         "%d spec failures (%d known), %.0fs" %
-        (prop, tier, seed, nthm, discharged, cases_total, len(fails_model), len(fails_spec),
+        (prop, tier, seed, nthm, discharged, cases_total, judged_total, len(fails_model), len(fails_spec),
          len(fails_spec) - len(unknown_spec), time.time() - t0))
     for suffix, rp in violations:
         print("VIOLATION property=%s replay=%s%s" % (prop, rp, suffix))
